@@ -73,6 +73,11 @@ class SimFS:
         self.crash_at = None     # index in log before which to crash
         self.deleted = []        # (path, content at deletion, by pid)
 
+    @staticmethod
+    def norm(p):
+        """One file has many spellings (/run/./app.pid, /run//app.pid, /run/x/../app.pid): the kernel resolves them all."""
+        return posixpath.normpath(p) if isinstance(p, str) and p else p
+
     # ---- bookkeeping
     def _call(self, name, *args):
         if self.crash_at is not None and len(self.log) == self.crash_at:
@@ -92,11 +97,36 @@ class SimFS:
 
             @staticmethod
             def isdir(p):
-                return p in fs.dirs
+                return fs.norm(p) in fs.dirs
 
             @staticmethod
             def exists(p):
-                return p in fs.files or p in fs.dirs
+                return fs.norm(p) in fs.files or fs.norm(p) in fs.dirs
+
+            lexists = exists
+
+            @staticmethod
+            def isfile(p):
+                fs._call("stat", fs.norm(p))
+                return fs.norm(p) in fs.files
+
+            @staticmethod
+            def getsize(p):
+                fs._call("stat", fs.norm(p))
+                if fs.norm(p) not in fs.files:
+                    raise FileNotFoundError(errno.ENOENT, "No such file or directory", p)
+                return len(fs.files[fs.norm(p)].data)
+
+            # pure string functions
+            join = staticmethod(posixpath.join)
+            basename = staticmethod(posixpath.basename)
+            normpath = staticmethod(posixpath.normpath)
+            split = staticmethod(posixpath.split)
+            splitext = staticmethod(posixpath.splitext)
+            isabs = staticmethod(posixpath.isabs)
+            abspath = staticmethod(posixpath.normpath)
+            realpath = staticmethod(posixpath.normpath)
+            sep = "/"
 
         class OS:
             path = Path
@@ -123,6 +153,27 @@ class SimFS:
                 fs._call("close", fd)
                 del fs.fds[fd]
 
+            O_RDONLY, O_WRONLY, O_RDWR, O_CREAT, O_EXCL, O_TRUNC, O_APPEND = 0, 1, 2, 0o100, 0o200, 0o1000, 0o2000
+
+            @staticmethod
+            def open(path, flags, mode=0o777, **kw):
+                path = fs.norm(path)
+                fs._call("os.open", path, flags)
+                exists = path in fs.files
+                if flags & OS.O_CREAT and flags & OS.O_EXCL and exists:
+                    raise FileExistsError(errno.EEXIST, "File exists", path)
+                if not exists:
+                    if not flags & OS.O_CREAT:
+                        raise FileNotFoundError(errno.ENOENT, "No such file or directory", path)
+                    fs.files[path] = Inode()
+                ino = fs.files[path]
+                if flags & OS.O_TRUNC and flags & (OS.O_WRONLY | OS.O_RDWR):
+                    ino.data = b""
+                fd = fs.next_fd
+                fs.next_fd += 1
+                fs.fds[fd] = ino
+                return fd
+
             @staticmethod
             def fdopen(fd, mode="r", *a, **kw):
                 fs._call("fdopen", fd)
@@ -134,6 +185,7 @@ class SimFS:
 
             @staticmethod
             def rename(a, b):
+                a, b = fs.norm(a), fs.norm(b)
                 fs._call("rename", a, b)
                 if a not in fs.files:
                     raise FileNotFoundError(errno.ENOENT, "No such file", a)
@@ -143,6 +195,7 @@ class SimFS:
 
             @staticmethod
             def chmod(p, mode):
+                p = fs.norm(p)
                 fs._call("chmod", p, mode)
                 if p not in fs.files:
                     raise FileNotFoundError(errno.ENOENT, "No such file", p)
@@ -150,6 +203,7 @@ class SimFS:
 
             @staticmethod
             def unlink(p):
+                p = fs.norm(p)
                 fs._call("unlink", p)
                 if p not in fs.files:
                     raise FileNotFoundError(errno.ENOENT, "No such file", p)
@@ -164,7 +218,7 @@ class SimFS:
             @staticmethod
             def mkstemp(dir=None, **kw):
                 fs._call("mkstemp", dir)
-                d = dir or "/tmp"
+                d = fs.norm(dir or "/tmp")
                 fs.tmp_counter += 1
                 name = posixpath.join(d, "tmp%04d" % fs.tmp_counter)
                 ino = Inode()
@@ -179,6 +233,7 @@ class SimFS:
         fs = self
 
         def sim_open(path, mode="r", *a, **kw):
+            path = fs.norm(path)
             fs._call("open", path, mode)
             if "r" not in mode:
                 raise io.UnsupportedOperation("simfs: read-only open")
